@@ -543,7 +543,9 @@ func genHistory(seed int64, idx int) c08History {
 }
 
 // incarnation identity used by the reference
-func incID(level, key string, create uint64) string { return fmt.Sprintf("%s:%s@%d", level, key, create) }
+func incID(level, key string, create uint64) string {
+	return fmt.Sprintf("%s:%s@%d", level, key, create)
+}
 
 // snapshotOf computes, from the first s operations of the history, (a) the dropped-object table as the statement
 // of C15 describes it (entry exactly for names with a dropped incarnation; time = create(newer live namesake)-1,
@@ -662,6 +664,11 @@ func c08RunHistory(run *vf.Run, hst c08History) {
 	stopped := false
 	vio := func(key, desc string, op *hop) {
 		stopped = true // writer tables and downstream are tainted from here on: one violation per history
+		// one defect, one key: the two database-level handlers consult no table at all, so every misbehaviour
+		// of theirs on a dropped incarnation (landing on a newer one, failing the task) has that one cause
+		if (op.Kind == "DropDatabase" || op.Kind == "AlterDatabase") && !strings.Contains(key, "current-incarnation") {
+			key = "C08/" + op.Kind + "-not-gated-by-database-tables"
+		}
 		t := trace
 		if len(t) > 60 {
 			t = t[len(t)-60:]
@@ -1027,6 +1034,7 @@ func c08ConcurrentDrop(run *vf.Run, kind string, variant int, id int64) {
 func runC08(tier string) *vf.Run {
 	run := vf.NewRun("C08", tier, "exploration")
 	run.Exhaustive = true
+	run.Extra("exhaustive_part", "Part A only (order-type sweep of the decision, pure and public); Parts B and C are sampled")
 	run.Rule = "Part A (exhaustive): all (m,c,d) over 8 boundary values x 4 presence combinations through VerifObjState; all (m,c,d) in {1,2,3}^3 (the 13 weak orderings) x 4 presence combinations x 3 levels through the public entry points with tables seeded via droppedObjs (operation kinds rotate over every kind that consults the level) and through Wait*Ready; distinct = order-type cell x level. Part B: generated source histories of 25-64 operations over 2 databases x 2 collections x 2 partitions (create/drop/re-create, index/load/release/flush/alter in between; 1/3 with a name mapping; kinds whose routing is wrong under a mapping (AlterIndex, ReleasePartitions, see C09) are not used in mapped histories), delivered with rewinds and restarts (dropped-object table computed as the statement of C15 says); non-trivial = every history; distinct by the set of (kind, dead/live/own-level-replay) it exercised. Part C: object dropped while the downstream call is in flight, per kind x database x drop level."
 	run.Assumptions = []string{
 		"the downstream catalog answers like Milvus behind MilvusDataHandler: idempotent creates, drop of a missing collection/partition/database succeeds, any other call on a missing object or routed to a missing database fails",
@@ -1052,7 +1060,7 @@ func runC08(tier string) *vf.Run {
 		}
 	}
 	// Part B, in parallel
-	n := run.Pick(1200, 12000)
+	n := run.Pick(1200, 40000)
 	for i := 0; i < n; i++ {
 		hst := genHistory(run.Seed, i)
 		if i < 1 {
